@@ -1,20 +1,422 @@
-import KcpVerif.Model.Kcp
-/-! C04 — window discipline: bounded buffering, truthful window, backpressure. -/
+import KcpVerif.Lemmas.KcpWindow
+import KcpVerif.Lemmas.KcpWndWire
+import KcpVerif.Lemmas.KcpAdmit
+import KcpVerif.Lemmas.KcpCwnd
+import KcpVerif.Lemmas.KcpClosed
+import KcpVerif.Lemmas.KcpCwndArith
+/-!
+C04 — window discipline: bounded buffering, truthful window, backpressure.
+
+All theorems are about the executable model `Model/Kcp.lean` of `kcp.go`.  "Every reachable state"
+means: `run (start conv snd0 rcv0) ops` for an arbitrary list `ops : List Op` of operations with
+ARBITRARY arguments (`Lemmas/KcpOps.lean`: `send recv input flush update setMtu noDelay wndSize
+setStream`; every byte string for `input` — forged `una`/`sn`/`wnd`/`len` included —, every clock
+value, every buffer length), starting from a fresh core whose sequence numbers start anywhere
+(`start`; the real code is `start conv 0 0`).
+
+The only hypothesis is `okRun`: every `wndSize` of the run leaves both windows below `2^31` and
+EITHER shrinks no window (growing mid-traffic is allowed) OR happens while nothing is buffered
+(windows set before traffic).  Shrinking a window under buffered traffic is excluded — and has to be:
+it makes `rcv_queue.length ≤ rcv_wnd` false immediately.  `okRun` is decidable.
+-/
 namespace KcpVerif.Props
 open KcpVerif KcpVerif.Gen KcpVerif.Kcp
 
 /-- the only place that appends to the delivery queue never exceeds the receive window -/
 theorem C04_moveLoop_bound (wnd : Nat) (buf q : List Seg) (nxt : U32) (h : q.length ≤ wnd) :
-    (moveLoop wnd buf q nxt).q.length ≤ wnd := by
-  induction buf generalizing q nxt with
-  | nil => simpa [moveLoop] using h
-  | cons s rest ih =>
-    unfold moveLoop
-    split
-    · rename_i hc
-      apply ih
-      simp only [List.length_append, List.length_cons, List.length_nil]
-      omega
-    · exact h
+    (moveLoop wnd buf q nxt).q.length ≤ wnd := moveLoop_q_le wnd buf q nxt h
+
+/-! ### the invariant is inductive over every operation -/
+
+/-- `Inv` (receive window, delivery-queue bound, send window — `Lemmas/KcpWindow.lean`) is preserved
+by EVERY operation with arbitrary arguments; the side condition `Op.ok` is `True` except for
+`wndSize`, where it is `WndChangeOK`. -/
+theorem C04_inv_step (k : Kcp) (op : Op) (hok : op.ok k) (h : Inv k) : Inv (step k op) :=
+  step_inv k op hok h
+
+/-- … in particular by `Input` of ANY byte string, without side condition -/
+theorem C04_inv_input (k : Kcp) (data : Bytes) (regular ackNoDelay : Bool) (now : U32) (h : Inv k) :
+    Inv (input k data regular ackNoDelay now).k := input_inv k data regular ackNoDelay now h
+
+theorem C04_inv_reachable (conv snd0 rcv0 : U32) (ops : List Op) (hok : okRun (start conv snd0 rcv0) ops) :
+    Inv (run (start conv snd0 rcv0) ops) := reachable_inv conv snd0 rcv0 ops hok
+
+/-- shrinking is excluded for a reason: one `wndSize` below the queue length breaks the bound -/
+example : ∃ k : Kcp, Inv k ∧ ¬ (k.wndSize 1 1).rcv_queue.length ≤ (k.wndSize 1 1).rcv_wnd.toNat :=
+  ⟨{ Kcp.new 1 with rcv_queue := [{}, {}] },
+   ⟨⟨by decide, fun _ hx => absurd hx List.not_mem_nil, List.Pairwise.nil⟩, by decide,
+    ⟨by decide, trivial, by decide, by decide⟩⟩, by decide⟩
+
+/-! ### 1. delivery queue -/
+
+/-- in every reachable state at most one receive window of segments awaits the reader -/
+theorem C04_rcvq_bound (conv snd0 rcv0 : U32) (ops : List Op) (hok : okRun (start conv snd0 rcv0) ops) :
+    (run (start conv snd0 rcv0) ops).rcv_queue.length ≤ (run (start conv snd0 rcv0) ops).rcv_wnd.toNat :=
+  (reachable_inv conv snd0 rcv0 ops hok).rq
+
+/-! ### 2. out-of-order buffer -/
+
+/-- `InvWin`: in every reachable state the sequence numbers in `rcv_buf` are pairwise distinct and lie in
+`[rcv_nxt, rcv_nxt + rcv_wnd)` (wrap-around order), with `rcv_wnd < 2^31`; hence (pigeonhole on an
+interval of `BitVec 32`) at most one receive window of segments is buffered out of order. -/
+theorem C04_rcvbuf_bound (conv snd0 rcv0 : U32) (ops : List Op) (hok : okRun (start conv snd0 rcv0) ops) :
+    let k := run (start conv snd0 rcv0) ops
+    k.rcv_wnd.toNat < 2^31 ∧
+    (∀ s ∈ k.rcv_buf, 0 ≤ itimediff s.sn k.rcv_nxt ∧ itimediff s.sn k.rcv_nxt < (k.rcv_wnd.toNat : Int)) ∧
+    k.rcv_buf.Pairwise (fun a b => a.sn ≠ b.sn) ∧
+    k.rcv_buf.length ≤ k.rcv_wnd.toNat := by
+  intro k
+  have h := (reachable_inv conv snd0 rcv0 ops hok).win
+  exact ⟨h.small, h.inwin, h.distinct, h.length_le⟩
+
+/-- the pigeonhole step on its own: ANY list of segments with distinct numbers inside a window of
+`wnd < 2^31` values has at most `wnd` elements -/
+theorem C04_window_pigeonhole (nxt wnd : U32) (buf : List Seg) (hw : wnd.toNat < 2^31)
+    (hin : ∀ s ∈ buf, 0 ≤ itimediff s.sn nxt ∧ itimediff s.sn nxt < (wnd.toNat : Int))
+    (hd : buf.Pairwise (fun a b => a.sn ≠ b.sn)) : buf.length ≤ wnd.toNat :=
+  WinOK.length_le ⟨hw, hin, hd⟩
+
+/-! ### 4. segments in flight -/
+
+/-- in every reachable state `snd_buf` holds exactly the consecutive sequence numbers
+`snd_una, …, snd_nxt - 1`, so the in-flight count `snd_nxt - snd_una` (32-bit) IS its length, and it
+never exceeds the send window — whatever `una`/`sn` a peer forges. -/
+theorem C04_inflight_bound (conv snd0 rcv0 : U32) (ops : List Op) (hok : okRun (start conv snd0 rcv0) ops) :
+    let k := run (start conv snd0 rcv0) ops
+    k.snd_wnd.toNat < 2^31 ∧
+    Consec k.snd_una k.snd_buf ∧
+    (k.snd_nxt - k.snd_una).toNat = k.snd_buf.length ∧
+    k.snd_buf.length ≤ k.snd_wnd.toNat := by
+  intro k
+  have h := (reachable_inv conv snd0 rcv0 ops hok).snd
+  exact ⟨h.small, h.consec, h.inflight, h.len_le⟩
+
+/-! ### 3. truthful window -/
+
+/-- the value `wnd_unused()` never exceeds the free space of the delivery queue (the `uint16`
+truncation can only lower it) and is exact whenever that space fits 16 bits -/
+theorem C04_wnd_value (k : Kcp) :
+    (wndUnused k).toNat ≤ k.rcv_wnd.toNat - k.rcv_queue.length ∧
+    (k.rcv_wnd.toNat - k.rcv_queue.length < 2^16 → (wndUnused k).toNat = k.rcv_wnd.toNat - k.rcv_queue.length) :=
+  ⟨wndUnused_le k, wndUnused_eq k⟩
+
+/-- every datagram handed to `output` by ANY operation from ANY state (`Input` included, whatever it
+was fed) is a concatenation of whole encoded segments `l` — ACK, WASK, WINS, PUSH alike — and every one
+of them carries in its `wnd` field exactly `wnd_unused()` of the state the operation leaves behind,
+hence at most the free space of the delivery queue.  (`stepPanic`: the model recorded a slice-bounds
+panic of the real code, after which nothing is modelled.) -/
+theorem C04_wnd_truthful (k : Kcp) (op : Op) (hp : stepPanic k op = false) :
+    ∀ o ∈ stepOuts k op, ∃ l : List WireSeg, o = encSegs l ∧
+      ∀ w ∈ l, w.wnd = wndUnused (step k op) ∧
+               w.wnd.toNat ≤ (step k op).rcv_wnd.toNat - (step k op).rcv_queue.length := by
+  intro o hm
+  obtain ⟨l, e, hw⟩ := step_allWnd k op hp o hm
+  exact ⟨l, e, fun w hwl => ⟨hw w hwl, by rw [hw w hwl]; exact wndUnused_le _⟩⟩
+
+/-- read from the receiving end: walk any emitted datagram the way the parse loop of `Input` does
+(`wndFields`: 24-byte header, `wnd` at offset 6, skip `len` payload bytes, same fuel) — every `wnd`
+field found is `wnd_unused()` of the state the operation left behind, at most the free space of the
+delivery queue.  (`o.length < 2^32`: the length field cannot wrap; every real datagram is below 64 KiB.) -/
+theorem C04_wnd_truthful_parsed (k : Kcp) (op : Op) (hp : stepPanic k op = false) :
+    ∀ o ∈ stepOuts k op, o.length < 2^32 →
+      ∀ x ∈ wndFields (o.length / IKCP_OVERHEAD + 1) o,
+        x = wndUnused (step k op) ∧ x.toNat ≤ (step k op).rcv_wnd.toNat - (step k op).rcv_queue.length := by
+  intro o hm hlen x hx
+  have := allWnd_fields (step_allWnd k op hp o hm) hlen x hx
+  exact ⟨this, by rw [this]; exact wndUnused_le _⟩
+
+/-- the same for `flush` alone, against the state it started from (the value is computed once, at the
+start, and stamped on every header: ACK/WASK/WINS through the scratch header, PUSH by `xmitOne`) -/
+theorem C04_wnd_truthful_flush (k : Kcp) (full : Bool) (now : U32) (hp : (flush k full now).panic = false) :
+    ∀ o ∈ (flush k full now).outs, AllWnd (wndUnused k) o := flush_allWnd k full now hp
+
+/-- a forged acknowledgement whose `sn` is outside `[snd_una, snd_nxt)` is ignored altogether -/
+theorem C04_forged_ack_ignored (k : Kcp) (sn ts : U32)
+    (h : itimediff sn k.snd_una < 0 ∨ itimediff sn k.snd_nxt ≥ 0) :
+    parseAck k sn = k ∧ parseFastack k sn ts = (k, false) := by
+  unfold parseAck parseFastack
+  rw [if_pos h, if_pos h]
+  exact ⟨rfl, rfl⟩
+
+/-- a forged `una` can only remove a prefix of `snd_buf` (and `shrink_buf` re-establishes `snd_una`) -/
+theorem C04_forged_una_prefix (k : Kcp) (una : U32) :
+    ∃ c, c ≤ k.snd_buf.length ∧ (shrinkBuf (parseUna k una).1).snd_buf = k.snd_buf.drop c ∧
+      (shrinkBuf (parseUna k una).1).snd_nxt = k.snd_nxt :=
+  ⟨unaCount una k.snd_buf, unaCount_le _ _, shrinkUna_buf k una, shrinkUna_nxt k una⟩
+
+/-! ### 5. admission rule -/
+
+/-- phase 4, one segment: the head of `snd_queue` receives the sequence number `nxt` ONLY in the branch
+where the window test succeeded … -/
+theorem C04_admission_step (conv una cwnd now : U32) (s : Seg) (rest buf : List Seg) (nxt : U32) (c : Nat) :
+    admitSegs conv una cwnd now (s :: rest) buf nxt c =
+      if itimediff nxt (una + cwnd) ≥ 0 then ⟨s :: rest, buf, nxt, c⟩
+      else admitSegs conv una cwnd now rest
+        (buf ++ [{ s with conv := conv, cmd := BitVec.ofNat 8 IKCP_CMD_PUSH, sn := nxt, ts := now, resendts := now }])
+        (nxt + 1) (c + 1) := rfl
+
+/-- … and under the send invariant that test IS "in flight `< cwnd_eff`" (unsigned), where
+`cwnd_eff = effCwnd k = min snd_wnd rmt_wnd` and, when `nocwnd = 0`, also `≤ cwnd` -/
+theorem C04_admission_guard (k : Kcp) (h : Inv k) :
+    ¬ (itimediff k.snd_nxt (k.snd_una + effCwnd k) ≥ 0) ↔
+      ((k.snd_nxt - k.snd_una) < k.snd_wnd ∧ (k.snd_nxt - k.snd_una) < k.rmt_wnd ∧
+       (k.nocwnd = 0 → (k.snd_nxt - k.snd_una) < k.cwnd)) := by
+  rw [admit_guard_bv h.snd (effCwnd_le k), lt_effCwnd_iff]
+
+/-- the admission rule for a whole `flush` from any state with the window invariant (in particular
+every reachable one): afterwards `snd_buf` holds the old sequence numbers followed by `new`, taken from the
+front of `snd_queue`; and every `sn ∈ new` was assigned at a moment when the in-flight count — which at
+that moment is `sn - snd_una`, `sn` being `snd_nxt` — was `< snd_wnd`, `< rmt_wnd` and, with congestion
+control on, `< cwnd`. -/
+theorem C04_admission_rule (k : Kcp) (full : Bool) (now : U32) (h : Inv k) :
+    ∃ new : List U32,
+      (flush k full now).k.snd_buf.map (·.sn) = k.snd_buf.map (·.sn) ++ new ∧
+      (flush k full now).k.snd_nxt = k.snd_nxt + BitVec.ofNat 32 new.length ∧
+      (flush k full now).k.snd_queue = k.snd_queue.drop new.length ∧
+      (flush k full now).k.snd_una = k.snd_una ∧
+      ∀ sn ∈ new, (k.snd_nxt - k.snd_una) ≤ (sn - k.snd_una) ∧
+        (sn - k.snd_una) < k.snd_wnd ∧ (sn - k.snd_una) < k.rmt_wnd ∧ (k.nocwnd = 0 → (sn - k.snd_una) < k.cwnd) :=
+  flush_admission k full now h
+
+/-- backpressure: while the effective window is full a flush admits nothing -/
+theorem C04_backpressure (k : Kcp) (full : Bool) (now : U32) (h : Inv k)
+    (hfull : ¬ (k.snd_nxt - k.snd_una) < effCwnd k) :
+    (flush k full now).k.snd_nxt = k.snd_nxt ∧ (flush k full now).k.snd_queue = k.snd_queue ∧
+    (flush k full now).k.snd_buf.length = k.snd_buf.length := flush_window_full k full now h hfull
+
+/-! ### 6. congestion window -/
+
+/-- a full flush that retransmits at least one segment by timeout (`flushLost` counts the segments of
+`snd_buf` that phase 5 resends because `resendts` was reached — `RtoDue`) leaves `cwnd = 1` -/
+theorem C04_rto_collapse (k : Kcp) (now : U32) (hn : k.nocwnd = 0) (hl : flushLost k now > 0) :
+    (flush k true now).k.cwnd = 1 := flush_rto_collapse k now hn hl
+
+/-- the hypothesis in terms of the state before the flush: some unacknowledged, already transmitted
+segment without pending fast-ack count is overdue -/
+theorem C04_rto_collapse_overdue (k : Kcp) (now : U32) (hn : k.nocwnd = 0) (s : Seg) (hs : s ∈ k.snd_buf)
+    (ha : s.acked = false) (hx : s.xmit ≠ 0) (hf : s.fastack = 0 ∨ s.fastack = 0xFFFFFFFF#32)
+    (hd : itimediff now s.resendts ≥ 0) : (flush k true now).k.cwnd = 1 :=
+  flush_rto_collapse k now hn (flushLost_pos k now s hs ha hx hf hd)
+
+/-- hence, with one segment or more in flight afterwards, nothing new is admitted by a later flush until
+`cwnd` grows again — which only `Input` does, and only when `snd_una` advanced (`cwndOnAck`) -/
+theorem C04_after_collapse_no_admission (k : Kcp) (full : Bool) (now : U32) (h : Inv k) (hn : k.nocwnd = 0)
+    (hc : k.cwnd = 1) (hin : k.snd_buf ≠ []) :
+    (flush k full now).k.snd_nxt = k.snd_nxt ∧ (flush k full now).k.snd_queue = k.snd_queue := by
+  have hfl := h.snd.inflight
+  have hlen : 0 < k.snd_buf.length := List.length_pos_iff.2 hin
+  have := flush_window_full k full now h (by
+    intro hlt
+    have := ((lt_effCwnd_iff k _).1 hlt).2.2 hn
+    rw [hc] at this
+    bv_omega)
+  exact ⟨this.1, this.2.1⟩
+
+/-! #### "nothing new after a timeout loss until the oldest outstanding segment is acknowledged" -/
+
+/-- the clause as the property has it: from any reachable state with congestion control on, after a full
+flush at `now` that retransmits by timeout, along ANY further run `ops2` (any operations, any input)
+during which congestion control stays on and `snd_una` does not move, `snd_nxt` does not move either. -/
+def C04_no_admission_until_ack_full : Prop :=
+  ∀ (conv snd0 rcv0 : U32) (ops1 : List Op) (now : U32) (ops2 : List Op),
+    okRun (start conv snd0 rcv0) ops1 →
+    (run (start conv snd0 rcv0) ops1).nocwnd = 0 →
+    flushLost (run (start conv snd0 rcv0) ops1) now > 0 →
+    okRun (flush (run (start conv snd0 rcv0) ops1) true now).k ops2 →
+    allAfter (fun x => x.nocwnd = 0 ∧
+        x.snd_una = (flush (run (start conv snd0 rcv0) ops1) true now).k.snd_una)
+      (flush (run (start conv snd0 rcv0) ops1) true now).k ops2 →
+    (run (flush (run (start conv snd0 rcv0) ops1) true now).k ops2).snd_nxt =
+      (flush (run (start conv snd0 rcv0) ops1) true now).k.snd_nxt
+
+/-- PROVED PART: the clause holds whenever no fast-resend threshold is configured (`fastresend ≤ 0` as
+int32 — the default; only `NoDelay(_, _, resend, _)` with `resend > 0` changes it) in every state of the run.
+Missing for the full statement: `fastresend > 0`, where the statement is FALSE (next theorem). -/
+theorem C04_no_admission_until_ack_partial
+    (conv snd0 rcv0 : U32) (ops1 : List Op) (now : U32) (ops2 : List Op)
+    (hok1 : okRun (start conv snd0 rcv0) ops1)
+    (hn : (run (start conv snd0 rcv0) ops1).nocwnd = 0)
+    (hf : (run (start conv snd0 rcv0) ops1).fastresend.sle 0 = true)
+    (hl : flushLost (run (start conv snd0 rcv0) ops1) now > 0)
+    (hok2 : okRun (flush (run (start conv snd0 rcv0) ops1) true now).k ops2)
+    (hq : allAfter (fun x => x.nocwnd = 0 ∧ x.fastresend.sle 0 = true ∧
+        x.snd_una = (flush (run (start conv snd0 rcv0) ops1) true now).k.snd_una)
+      (flush (run (start conv snd0 rcv0) ops1) true now).k ops2) :
+    (run (flush (run (start conv snd0 rcv0) ops1) true now).k ops2).snd_nxt =
+      (flush (run (start conv snd0 rcv0) ops1) true now).k.snd_nxt := by
+  have hi := reachable_inv conv snd0 rcv0 ops1 hok1
+  have hi' := flush_inv _ true now hi
+  have hc := closed_after_rto _ now hn hf hl
+  exact (closed_run _ ops2 hok2 hi' hc hq).2
+
+/-- the same from ANY state with the window invariant and a closed congestion window
+(`Closed`: `nocwnd = 0`, `fastresend ≤ 0`, something in flight, `cwnd ≤` in flight) -/
+theorem C04_closed_window_stays_closed (k : Kcp) (ops : List Op) (hok : okRun k ops) (hi : Inv k) (hc : Closed k)
+    (hq : allAfter (fun k' => k'.nocwnd = 0 ∧ k'.fastresend.sle 0 = true ∧ k'.snd_una = k.snd_una) k ops) :
+    Closed (run k ops) ∧ (run k ops).snd_nxt = k.snd_nxt := closed_run k ops hok hi hc hq
+
+/-- ACK segments for conv 9: `ackS0` acknowledges sn 0 with una 1; `ackS2` acknowledges sn 2, una still 1 -/
+def ackS0 : Bytes := [9,0,0,0, 82,0, 32,0, 110,0,0,0, 0,0,0,0, 1,0,0,0, 0,0,0,0]
+def ackS2 : Bytes := [9,0,0,0, 82,0, 32,0, 0xE8,3,0,0, 2,0,0,0, 1,0,0,0, 0,0,0,0]
+
+/-- congestion control on, fast resend after 2 duplicate acks (`NoDelay(0, 100, 2, 0)`); segment 0 is sent
+and acknowledged (`cwnd` 1 → 2), segments 1 and 2 are sent -/
+def frOps1 : List Op :=
+  [.noDelay 0 100 2 0, .send [1], .send [2], .send [3], .send [4], .send [5], .flush true 100, .flush true 110,
+   .input ackS0 true false 120]
+/-- two duplicate acknowledgements of segment 2, then a flush -/
+def frOps2 : List Op := [.input ackS2 true false 1010, .input ackS2 true false 1011, .flush true 1020]
+
+/-- THE FULL CLAUSE IS FALSE for the model (and, by the same run, for kcp.go — confirmed on the real
+code): with `fastresend = 2` the timeout flush at t = 1000 collapses `cwnd` to 1, the two duplicate
+acknowledgements make the next flush fast-retransmit segment 1, phase 6 sets
+`cwnd = max(inflight/2, 2) + fastresend = 4 > 2` segments in flight, and the flush after that admits
+segments 3 and 4 — `snd_nxt` 3 → 5 — while `snd_una = 1` has not moved (classic fast recovery). -/
+theorem C04_no_admission_until_ack_full_false : ¬ C04_no_admission_until_ack_full := by
+  intro h
+  have := h 9 0 0 frOps1 1000 frOps2 (by decide) (by decide) (by decide) (by decide) (by decide)
+  revert this
+  decide
+
+/-- the states of the counterexample, spelled out -/
+example :
+    let k1 := (flush (run (start 9 0 0) frOps1) true 1000).k
+    k1.cwnd = 1 ∧ k1.snd_una = 1 ∧ k1.snd_nxt = 3 ∧
+    (run k1 (frOps2.take 2)).cwnd = 4 ∧ (run k1 (frOps2.take 2)).snd_una = 1 ∧
+    (run k1 frOps2).snd_una = 1 ∧ (run k1 frOps2).snd_nxt = 5 := by decide
+
+/-- `C04_no_admission_until_ack_partial` is not vacuous: the same traffic with the default `fastresend = 0`
+satisfies every hypothesis (and `snd_nxt` indeed stays at 3) -/
+def slOps1 : List Op :=
+  [.send [1], .send [2], .send [3], .send [4], .send [5], .flush true 100, .flush true 110, .input ackS0 true false 120]
+example :
+    okRun (start 9 0 0) slOps1 ∧ (run (start 9 0 0) slOps1).nocwnd = 0 ∧
+    (run (start 9 0 0) slOps1).fastresend.sle 0 = true ∧ flushLost (run (start 9 0 0) slOps1) 1000 > 0 ∧
+    okRun (flush (run (start 9 0 0) slOps1) true 1000).k frOps2 ∧
+    allAfter (fun x => x.nocwnd = 0 ∧ x.fastresend.sle 0 = true ∧
+        x.snd_una = (flush (run (start 9 0 0) slOps1) true 1000).k.snd_una)
+      (flush (run (start 9 0 0) slOps1) true 1000).k frOps2 ∧
+    (run (flush (run (start 9 0 0) slOps1) true 1000).k frOps2).snd_queue.length = 2 := by decide
+
+/-- `cwnd` is touched by nothing but `Input` and the flushes (`flush`, `Update`) -/
+theorem C04_cwnd_changes_only (k : Kcp) (op : Op) (h : (step k op).cwnd ≠ k.cwnd) :
+    (∃ d reg nd now, op = .input d reg nd now) ∨ (∃ full now, op = .flush full now) ∨ (∃ now, op = .update now) := by
+  cases op with
+  | input d reg nd now => exact Or.inl ⟨d, reg, nd, now, rfl⟩
+  | flush full now => exact Or.inr (Or.inl ⟨full, now, rfl⟩)
+  | update now => exact Or.inr (Or.inr ⟨now, rfl⟩)
+  | send b => exfalso; apply h; obtain ⟨q, e⟩ := send_shape k b; show (send k b).k.cwnd = _; rw [e]
+  | recv n => exfalso; apply h; obtain ⟨q, b, x, p, e⟩ := recv_shape k n; show (recv k n).k.cwnd = _; rw [e]
+  | setMtu m => exfalso; apply h; obtain ⟨a, b, c, e⟩ := setMtu_shape k m; show (setMtu k m).1.cwnd = _; rw [e]
+  | noDelay a b c d =>
+    exfalso; apply h; obtain ⟨_, _, _, _, _, e⟩ := noDelay_shape k a b c d; show (noDelay k a b c d).cwnd = _; rw [e]
+  | wndSize s r => exfalso; apply h; obtain ⟨_, _, e⟩ := wndSize_shape k s r; show (wndSize k s r).cwnd = _; rw [e]
+  | setStream v => exact absurd rfl h
+
+/-- … and inside `Input` the parse loop and the RTT update leave it alone: only the ack-driven update
+(which needs `snd_una` to have advanced) and phase 6 of a flush write it -/
+theorem C04_cwnd_input_loop (regular : Bool) (fuel : Nat) (data : Bytes) (st : InLoop) :
+    (inputLoop regular fuel data st).k.cwnd = st.k.cwnd := by
+  obtain ⟨_, _, _, _, _, _, _, _, e⟩ := inputLoop_shape regular fuel data st
+  rw [e]
+
+theorem C04_cwnd_unchanged_without_advance (k : Kcp) (oldUna : U32) (h : ¬ itimediff k.snd_una oldUna > 0) :
+    cwndOnAck k oldUna = k := by
+  rw [cwndOnAck_eq, if_neg (fun hc => h hc.2.1)]
+
+/-- `1 ≤ cwnd` after ANY flush with congestion control on -/
+theorem C04_cwnd_sane (k : Kcp) (full : Bool) (now : U32) (hn : k.nocwnd = 0) :
+    1 ≤ (flush k full now).k.cwnd := flush_cwnd_ge k full now hn
+
+/-- `cwnd ≤ rmt_wnd` after the ack-driven update of `Input` whenever it changed `cwnd`
+(and `rmt_wnd` is the value the peer advertised: the update does not touch it) -/
+theorem C04_cwnd_le_rmt (k : Kcp) (oldUna : U32) (hch : (cwndOnAck k oldUna).cwnd ≠ k.cwnd) :
+    (cwndOnAck k oldUna).cwnd ≤ k.rmt_wnd := by
+  have := cwndOnAck_changed k oldUna hch
+  rwa [cwndOnAck_rmt] at this
+
+/-- the arithmetic of the ack-driven growth is sound in EVERY reachable state (no side condition at all:
+any operations, any arguments): `rmt_wnd < 2^16`, `1 ≤ mss ≤ mtuLimit`; hence the divisor of
+`mss*mss/incr` is not zero (the model's `BitVec` division would silently return 0 where Go panics — it
+never gets there), the guard `mss > 0` is always true, and `(cwnd+1)*mss` does not wrap whenever the
+growth step runs (`cwnd < rmt_wnd`). -/
+theorem C04_cwnd_arith (conv snd0 rcv0 : U32) (ops : List Op) :
+    let k := run (start conv snd0 rcv0) ops
+    k.rmt_wnd.toNat < 2^16 ∧ 1 ≤ k.mss.toNat ∧ k.mss.toNat ≤ mtuLimit ∧
+    (if k.incr < k.mss then k.mss else k.incr) ≠ 0 ∧ k.mss > 0 ∧
+    (k.cwnd < k.rmt_wnd → ((k.cwnd + 1) * k.mss).toNat = (k.cwnd.toNat + 1) * k.mss.toNat) := by
+  intro k
+  have h : CwOK k := run_cw _ ops (start_cw conv snd0 rcv0)
+  exact ⟨h.1, h.2.1, h.2.2, cwGrow_divisor_pos k h, cwGrow_mss_pos k h, cwGrow_no_wrap k h⟩
+
+/-! ### non-vacuity: a concrete run across the 32-bit wrap with forged and out-of-order input -/
+
+/-- PUSH segments for conv 7 (`sn` = FFFFFFFF / FFFFFFFE / 0), one payload byte each -/
+def pushFF : Bytes := [7,0,0,0, 81,0, 32,0, 0,0,0,0, 0xFF,0xFF,0xFF,0xFF, 0xF0,0xFF,0xFF,0xFF, 1,0,0,0, 0xAA]
+def pushFE : Bytes := [7,0,0,0, 81,0, 32,0, 0,0,0,0, 0xFE,0xFF,0xFF,0xFF, 0xF0,0xFF,0xFF,0xFF, 1,0,0,0, 0xBB]
+def push00 : Bytes := [7,0,0,0, 81,0, 32,0, 0,0,0,0, 0,0,0,0, 0xF0,0xFF,0xFF,0xFF, 1,0,0,0, 0xCC]
+/-- an ACK for sn FFFFFFF1 whose `una` (FFFFFFF1) acknowledges the first segment -/
+def ackF1 : Bytes := [7,0,0,0, 82,0, 32,0, 100,0,0,0, 0xF1,0xFF,0xFF,0xFF, 0xF1,0xFF,0xFF,0xFF, 0,0,0,0]
+/-- a forged ACK whose `una` is 2^31 - 1 ahead -/
+def ackForged : Bytes := [7,0,0,0, 82,0, 0xFF,0xFF, 100,0,0,0, 0x00,0,0,0x70, 0xEF,0xFF,0xFF,0x7F, 0,0,0,0]
+
+def demoOps : List Op :=
+  [.wndSize 2 2, .noDelay 1 10 2 1, .send [1,2,3], .send [4], .send [5], .flush true 100,
+   .input pushFF true false 120, .input push00 true false 121, .wndSize 3 4, .input pushFE true false 125,
+   .input ackF1 true false 130, .update 300, .recv 10, .input ackForged true true 310, .update 400]
+
+def demo : Kcp := run (start 7 0xFFFFFFF0#32 0xFFFFFFFE#32) demoOps
+
+/-- the hypothesis of the reachable-state theorems holds for the demo run (it contains a window set
+before traffic, a window grown mid-traffic, an out-of-window segment and forged acknowledgements) -/
+example : okRun (start 7 0xFFFFFFF0#32 0xFFFFFFFE#32) demoOps := by decide
+
+/-- … and the run visits non-trivial states: after 8 operations the send window is exactly full (the
+bound of `C04_inflight_bound` is tight), one segment is buffered out of order at sequence number
+FFFFFFFF and the out-of-window segment 0 was refused; after 10 the delivery queue holds two segments
+and `rcv_nxt` has wrapped to 0. -/
+example :
+    let k := run (start 7 0xFFFFFFF0#32 0xFFFFFFFE#32) (demoOps.take 8)
+    k.snd_buf.map (·.sn) = [0xFFFFFFF0#32, 0xFFFFFFF1#32] ∧ k.snd_wnd = 2 ∧ k.snd_queue.length = 1 ∧
+    k.rcv_buf.map (·.sn) = [0xFFFFFFFF#32] ∧ k.rcv_wnd = 2 := by decide
+example :
+    let k := run (start 7 0xFFFFFFF0#32 0xFFFFFFFE#32) (demoOps.take 10)
+    k.rcv_queue.map (·.sn) = [0xFFFFFFFE#32, 0xFFFFFFFF#32] ∧ k.rcv_nxt = 0 ∧ k.rcv_buf = [] := by decide
+
+/-- `C04_wnd_truthful` is not vacuous: operation 12 of the demo run (`update 300`) emits one datagram
+without panic, operation 6 (`flush`) emits the two PUSH segments -/
+example :
+    let k := run (start 7 0xFFFFFFF0#32 0xFFFFFFFE#32) (demoOps.take 11)
+    stepPanic k (.update 300) = false ∧ (stepOuts k (.update 300)).length = 1 := by decide
+example :
+    let k := run (start 7 0xFFFFFFF0#32 0xFFFFFFFE#32) (demoOps.take 5)
+    stepPanic k (.flush true 100) = false ∧ (stepOuts k (.flush true 100)).map List.length = [24 + 3 + 24 + 1] := by
+  decide
+
+/-- … and a receiver parses two `wnd` fields out of that datagram, both equal to 2 (= `rcv_wnd`, queue empty) -/
+example :
+    let k := run (start 7 0xFFFFFFF0#32 0xFFFFFFFE#32) (demoOps.take 5)
+    (stepOuts k (.flush true 100)).map (fun o => wndFields (o.length / IKCP_OVERHEAD + 1) o) = [[2, 2]] := by
+  decide
+
+/-- `C04_backpressure` is not vacuous: after 6 operations the window (2) is full with one segment queued -/
+example :
+    let k := run (start 7 0xFFFFFFF0#32 0xFFFFFFFE#32) (demoOps.take 6)
+    ¬ (k.snd_nxt - k.snd_una) < effCwnd k ∧ k.snd_queue.length = 1 := by decide
+
+/-- a sender with congestion control on: three messages, the first flush opens `cwnd` to 1, the second
+sends segment 0 at t = 110 (due again at 310) -/
+def rtoOps : List Op := [.send [1], .send [2], .send [3], .flush true 100, .flush true 110]
+def rtoState : Kcp := { run (start 9 0 0) rtoOps with cwnd := 5, rmt_wnd := 5 }
+
+/-- `C04_rto_collapse` / `C04_after_collapse_no_admission` are not vacuous: at t = 1000 the segment is
+overdue; the flush resends it, admits up to the (still open) window first, and collapses `cwnd` from 5 to 1 -/
+example : rtoState.nocwnd = 0 ∧ flushLost rtoState 1000 > 0 ∧ rtoState.cwnd = 5 ∧
+    (flush rtoState true 1000).k.cwnd = 1 ∧ (flush rtoState true 1000).k.snd_buf ≠ [] := by decide
+
+/-- `C04_cwnd_le_rmt` is not vacuous: an acknowledged segment grows `cwnd` from 1 to 2 -/
+example :
+    let k := { run (start 9 0 0) rtoOps with snd_una := 1, snd_buf := [] }
+    (cwndOnAck k 0).cwnd = 2 ∧ k.cwnd = 1 := by decide
 
 end KcpVerif.Props
